@@ -138,6 +138,44 @@ def model_inputs(model, input_tensors):
     return arrs
 
 
+class _Fresh:
+    """Fresh solver per query: z3's incremental mode (push/pop) uses a weaker core for mixed
+    Int/Real (ToInt) and non-linear problems -- probe: `round` query unknown@5s incremental, sat@0.0s fresh."""
+
+    def __init__(self, base, timeout_ms):
+        self.base = list(base)
+        self.timeout_ms = int(timeout_ms)
+        self.extra = []
+        self._model = None
+
+    def push(self):
+        self.extra.append([])
+
+    def pop(self):
+        self.extra.pop()
+
+    def add(self, c):
+        if self.extra:
+            self.extra[-1].append(c)
+        else:
+            self.base.append(c)
+
+    def check(self, timeout_ms=None):
+        s = z3.Solver()
+        s.set("timeout", int(timeout_ms or self.timeout_ms))
+        for c in self.base:
+            s.add(c)
+        for lvl in self.extra:
+            for c in lvl:
+                s.add(c)
+        r = s.check()
+        self._model = s.model() if str(r) == "sat" else None
+        return r
+
+    def model(self):
+        return self._model
+
+
 def compare_outputs(
     cand_outs,
     ref_outs,
@@ -170,13 +208,7 @@ def compare_outputs(
             res["status"] = "shape_mismatch"
             res["detail"].append(f"output {i}: dtype class {a.dtype} vs {b.dtype}")
             return res
-    solver = z3.Solver()
-    solver.set("timeout", int(timeout_ms))
-    solver.set("rlimit", int(timeout_ms) * 4000)
-    for c in assumptions:
-        solver.add(c)
-    for ax in S.SPECIAL_AXIOMS:
-        solver.add(ax)
+    solver = _Fresh(list(assumptions) + list(S.SPECIAL_AXIOMS), timeout_ms)
     seen_keys = {}
     unknown = 0
     t_begin = time.time()
@@ -236,9 +268,39 @@ def compare_outputs(
             seen_keys[key] = True
             st.queries += 1
             t0 = time.time()
-            solver.push()
-            solver.add(q)
-            r = str(solver.check())
+            r = None
+            q_raw = differs_expr(X, Y, kind, tau)
+            half = max(500, int(timeout_ms) // 2)
+            if kind == "f" and tau:
+                # stage 1: exact disequality on the raw terms (cheap for discrete mismatches such as
+                # rounding modes); unsat closes the obligation, a model that already exceeds the
+                # tolerance is a candidate
+                solver.push()
+                solver.add(X != Y)
+                r1 = str(solver.check(half))
+                if r1 == "unsat":
+                    r = "unsat"
+                elif r1 == "sat":
+                    m1 = solver.model()
+                    if z3.is_true(m1.eval(q_raw, model_completion=True)):
+                        r = "sat"
+                        solver.pop()
+                        solver.push()
+                        solver.add(z3.And(*[v == m1.eval(v, model_completion=True) for v in _vars_of(q_raw).values()]) if _vars_of(q_raw) else z3.BoolVal(True))
+                        if str(solver.check(half)) != "sat":
+                            r = None
+                if r is None:
+                    solver.pop()
+            if r is None:
+                # stage 2: tolerance query on raw terms; stage 3: on simplified terms
+                solver.push()
+                solver.add(q_raw)
+                r = str(solver.check())
+                if r == "unknown":
+                    solver.pop()
+                    solver.push()
+                    solver.add(q)
+                    r = str(solver.check(half))
             st.solver_s += time.time() - t0
             if r == "unsat":
                 st.unsat += 1
